@@ -33,6 +33,10 @@ std::uint64_t mix64(std::uint64_t a, std::uint64_t b);
 struct Knobs {
     // scheduling
     std::uint32_t preempt_per_1024 = 256;  // chance to switch fiber at a scheduling point
+    // a thread may be descheduled for a long time at any instant: with this chance a fiber that reaches a scheduling point is put
+    // to sleep for up to deschedule_max_ns of simulated time although it could run (timers of other threads fire meanwhile)
+    std::uint32_t deschedule_per_65536 = 0;
+    std::int64_t deschedule_max_ns = 1'500'000'000;
     bool clock_jitter = false;             // every clock read advances time by 1..jitter_ns
     std::uint32_t jitter_ns = 1000;
     // network
@@ -59,7 +63,7 @@ struct RunStats {
     std::uint64_t short_reads = 0, short_writes = 0, eagain = 0, resets = 0, refused = 0,
                   rcv_timeouts = 0, sigpipes = 0, conn_established = 0, accept_faults = 0,
                   dgram_lost = 0, dgram_dup = 0, dgram_delivered = 0,
-                  file_faults = 0, file_ops = 0, crashes = 0, clock_steps = 0, bytes_tx = 0;
+                  file_faults = 0, file_ops = 0, crashes = 0, clock_steps = 0, bytes_tx = 0, descheduled = 0;
     bool deadlock = false;            // no runnable fiber, no timer, driver unfinished
     bool step_limit = false;
     std::string fatal;                // non-empty: run aborted by the kernel (description)
